@@ -154,7 +154,7 @@ def gen_span(rng, widen=False):
         'con_out': rng.choice([0, 0, 0.25, 0.5]),
         'max_length': rng.choice([150, 150, 150, 120, 100, 180]),
         'length_units': 'km',
-        'voa_margin': rng.choice([1, 1, 0.5, 2]),
+        'voa_margin': rng.choice([1, 1, 1, 0.5, 2, 0]),
         'voa_step': rng.choice([0.5, 0.5, 1, 0.1]),
         'target_extended_gain': rng.choice([2.5, 2.5, 0, 5]),
         'max_fiber_lineic_loss_for_raman': rng.choice([0.25, 0.25, 0.21, 0.35]),
